@@ -95,6 +95,27 @@ pub fn componentize(module: &[u8], validate: bool) -> Result<Vec<u8>, String> {
         .map_err(|e| format!("{e:#}"))
 }
 
+/// core exports of `module` that the component model assigns to no item of the world (the
+/// encoder ignores those silently): a mis-named `cabi_post_*` or callback export ends up here
+pub fn unassigned_exports(module: &[u8], resolve: &Resolve, world: wit_parser::WorldId) -> Result<Vec<String>, String> {
+    let allowed = crate::c13::allowed_exports(resolve, world);
+    let mut out = vec![];
+    for payload in wasmparser::Parser::new(0).parse_all(module) {
+        if let wasmparser::Payload::ExportSection(r) = payload.map_err(|e| e.to_string())? {
+            for e in r {
+                let e = e.map_err(|e| e.to_string())?;
+                let n = e.name;
+                // linker-defined and toolchain symbols
+                let toolchain = n.starts_with("__") || matches!(n, "memory" | "_initialize" | "_start" | "cabi_realloc" | "wasip3_task_set") || n.starts_with("cabi_realloc_wit_bindgen");
+                if !toolchain && !allowed.contains(n) {
+                    out.push(n.to_string());
+                }
+            }
+        }
+    }
+    Ok(out)
+}
+
 // ------------------------------------------------------------ world comparison
 
 fn ty_str(resolve: &Resolve, t: &Type, depth: usize) -> String {
